@@ -222,6 +222,11 @@ class C10(HistoryCheck):
         if (n1 is not (not e1)) or (n2 is not (not e2)):
             ctx.violate({"invariant": "ne_is_not_eq", "pair": pair}, {"op": op}, idx)
         same_cls = type(x) is type(y)
+        if not same_cls and want is False and (e1 is True or e2 is True):
+            # an instance of a class and one of its subclass: whatever "compatible" allows, operands whose compared
+            # attributes differ (an attribute one of them does not have differs from any value) are never equal
+            ctx.violate({"invariant": "unequal_attributes_never_equal", "pair": pair, "fwd": e1, "rev": e2},
+                        {"op": op, "first_difference_at": pos, "x": _short(x), "y": _short(y)}, idx)
         if same_cls and e1 is not want:
             prev = kinds[-1] if kinds else "-"
             ctx.violate({"invariant": "eq_matches_attributewise_comparison", "pair": pair, "got": e1, "want": want,
@@ -240,6 +245,23 @@ class C10(HistoryCheck):
         self.check_repr(ctx, world, x, idx, op, selfref="-")
         role = world.role_of(x)
         info = world.info(role)
+        if role == "sub":
+            # the pair the pool rarely holds: a parent-class instance carrying exactly this instance's inherited values
+            hinfo = world.info("host")
+            if not any(a.get("flags", {}).get("init") is False for a in hinfo.values()):
+                try:
+                    twin = world.classes["host"](**{n: copy.deepcopy(x.__dict__[n]) for n in hinfo if n in x.__dict__})
+                except RecursionError:
+                    twin = None
+                except Exception:
+                    twin = None
+                if twin is not None:
+                    self.check_pair(ctx, world, twin, x, idx, "parent_twin", op)
+                    try:
+                        other = copy.deepcopy(x)
+                    except Exception:  # noqa: BLE001 (deepcopy totality is judged below)
+                        other = x
+                    self.check_transitive(ctx, world, x, twin, other, idx, op)
         selfref = False
         # deepcopy(x) == x
         try:
